@@ -40,12 +40,12 @@ LoRange(q)       == {q[i] : i \in 1..Len(q)}
 (* encodings (UTF-8 is prefix free and order preserving, so comparing      *)
 (* token by token is comparing byte by byte).                              *)
 (***************************************************************************)
-TokOrder == <<"TAB", "SP", "!", "\"", "#", "$", "%", "&", "'", "(", ")", "*", "+", ",", "-", ".", "/",
+TokOrder == <<"TAB", "LF", "SP", "!", "\"", "#", "$", "%", "&", "'", "(", ")", "*", "+", ",", "-", ".", "/",
               "0", "1", "2", "3", "4", "5", "6", "7", "8", "9", ":", ";", "<", "=", ">", "?", "@",
               "A", "B", "C", "D", "E", "F", "G", "H", "I", "J", "K", "L", "M", "N", "O", "P", "Q", "R", "S", "T", "U", "V", "W", "X", "Y", "Z",
               "[", "\\", "]", "^", "_", "`",
               "a", "b", "c", "d", "e", "f", "g", "h", "i", "j", "k", "l", "m", "n", "o", "p", "q", "r", "s", "t", "u", "v", "w", "x", "y", "z",
-              "{", "|", "}", "~", "U2", "U3", "U4">>
+              "{", "|", "}", "~", "NB", "U2", "EM", "U3", "U4">>
 TxRank(t) == CHOOSE i \in 1..Len(TokOrder) : TokOrder[i] = t
 
 RECURSIVE TxLess(_, _)
